@@ -127,6 +127,11 @@ func c12Judge(c *fw.Case, d *richDoc, sql string, multiset bool, feats []string,
 		c.Feature("follow-up.whole-rows")
 	}
 	R := pick(c.Tier, 2, 5)
+	if containsStr(feats, "item.mix-object") {
+		// which of two colliding names wins must not be left to the iteration
+		// order of a map: many evaluations
+		R = 24
+	}
 	for rep := 0; rep < R; rep++ {
 		again := Run(d.fresh(), sql, opts()...)
 		waitBackground()
